@@ -12,12 +12,16 @@ var shapes = []struct{ lit, key0, nested string }{
 	{"[$e0, $e1, 3]", "0", ""},
 	{"[\"a\" => $e0, \"b\" => $e1]", "\"a\"", ""},
 	{"[[$e0, 2], [$e1]]", "0", "[0]"},
+	{"[[], $e0, [$e1]]", "0", "[0]"}, // an EMPTY inner list (writes into it must not be shared either)
 }
 
 // snapshot statements for expression X (emits every leaf + count)
 func snap(x string, shape int) string {
 	if shape == 2 {
 		return "foreach (" + x + " as $row) { foreach ($row as $v) { emit($v); } mark(77); } mark(88);"
+	}
+	if shape == 3 {
+		return "foreach (" + x + "[0] as $v) { emit($v); } mark(77); emit(" + x + "[1]); foreach (" + x + "[2] as $v) { emit($v); } mark(88);"
 	}
 	return "foreach (" + x + " as $k => $v) { emit($v); } mark(88);"
 }
@@ -62,11 +66,21 @@ func mutation(m int, x string, key0, nested string) (string, bool) {
 		return x + "->reverse();", true
 	case 9:
 		return x + "->shift();", true
+	case 10:
+		if nested == "" {
+			return "", false
+		}
+		return x + "[" + key0 + "][] = $w;", true
+	case 11:
+		if nested == "" {
+			return "", false
+		}
+		return x + "[" + key0 + "]->push($w);", true
 	}
 	return "", false
 }
 
-const nMut = 10
+const nMut = 12
 
 func logInts() ([]int, bool) {
 	var out []int
